@@ -10,13 +10,14 @@ or a cancellation at the k-th executed fault point), and the three operations as
   connectScript     pyatv/__init__.py connect() (protocol set-up loop :129-160) together with
                     pyatv/core/facade.py FacadeAppleTV.connect (:700-733) / close (:744-761)
   streamFile        pyatv/protocols/raop/__init__.py RaopStream.stream_file (:331-406),
-                    RaopPlaybackManager.acquire (:129) / setup (:136) / teardown (:166)
+                    RaopPlaybackManager.acquire (:129) / setup (:136) / teardown (:166),
+                    pyatv/protocols/raop/stream_client.py StreamClient.initialize (:287) / close (:279)
   playUrl           pyatv/protocols/airplay/__init__.py AirPlayStream.play_url (:106-148)
   `acq`             pyatv/core/facade.py FacadeAppleTV.takeover (:763, all-or-nothing over the
                     Relayers, pyatv/core/relayer.py :117 takeover / :125 release) and
                     RaopPlaybackManager.acquire (refuses when `_is_acquired`)
 
-The scripts transcribe the code AFTER the four `fix:` commits of this property (D13 a-d);
+The scripts transcribe the code AFTER the five `fix:` commits of this property (D13 a-e);
 `Orig.*` are the scripts of the pinned tree before the repair (they are not `Bracketed`;
 Props/C18.lean proves the leaks as counterexamples).
 
@@ -40,7 +41,8 @@ inductive Res
   | acquired               -- RaopPlaybackManager._is_acquired          (shared)
   | takeover (i : Nat)     -- Relayer of interface i is taken over      (shared)
   | rconn                  -- RAOP HttpConnection (playback_manager._connection)
-  | sclient                -- initialised StreamClient (control/timing endpoints)
+  | ctrl                   -- StreamClient.control_client (UDP endpoint opened by initialize)
+  | timing                 -- StreamClient.timing_server  (UDP endpoint opened by initialize)
   | audio                  -- opened AudioSource
   | server                 -- started StaticFileWebServer
   | playConn               -- AirPlay HttpConnection (AirPlayStream._connection)
@@ -54,7 +56,8 @@ def Res.toStr : Res → String
   | .acquired => "acquired"
   | .takeover i => s!"takeover{i}"
   | .rconn => "rconn"
-  | .sclient => "sclient"
+  | .ctrl => "ctrl"
+  | .timing => "timing"
   | .audio => "audio"
   | .server => "server"
   | .playConn => "playConn"
@@ -218,7 +221,10 @@ def streamFile (volKnown metaGiven : Bool) : Prog :=
       (Prog.ofList [
         .acq raopTakeover,                                  -- core.takeover(Audio, Metadata, PushUpdater, RemoteControl)
         .await, .new .rconn,                                -- playback_manager.setup: http_connect
-        .await, .new .sclient,                              -- client.initialize
+        .await, .new .ctrl,                                 -- client.initialize: control endpoint
+        .await, .new .timing,                               --                    timing endpoint
+        .await,                                             --                    rtsp.info
+        .await,                                             --                    protocol.setup
         .await, .new .audio,                                -- open_source
         (if metaGiven then .skip else .await),              -- audio_file.get_metadata
         (if volKnown then .skip else .attempt .await),      -- try: audio.set_volume except Exception: defer
@@ -226,7 +232,8 @@ def streamFile (volKnown metaGiven : Bool) : Prog :=
       (.seq (Prog.ofList (raopTakeover.map .relOwn))        -- if takeover_release: takeover_release()
         (.tryFinally
           (.whenOwn .audio (.seq (.relOwn .audio) .await))  -- if audio_file: await audio_file.close()
-          (Prog.ofList [.relOwn .sclient, .relOwn .rconn, .rel .acquired]))))  -- teardown()
+          (Prog.ofList [.relOwn .ctrl, .relOwn .timing,     -- teardown(): stream_client.close()
+                        .relOwn .rconn, .rel .acquired]))))  --   connection.close(); _is_acquired = False
 
 /-- AirPlayStream.play_url.  `localFile`: the URL is a local file served by a web server. -/
 def playUrl (localFile : Bool) : Prog :=
@@ -241,7 +248,7 @@ def playUrl (localFile : Bool) : Prog :=
         (Prog.ofList ((airplayTakeover.map .relOwn) ++ [.relOwn .playTask, .relOwn .playConn])) ])
     (if localFile then .seq (.relOwn .server) .await else .skip)   -- if server: await server.close()
 
-/-! ## The pinned tree before the repair (D13 a–d) -/
+/-! ## The pinned tree before the repair (D13 a–e) -/
 namespace Orig
 
 /-- except Exception: await session_manager.close(); raise — protocols stay connected. -/
@@ -255,13 +262,17 @@ def streamFile (volKnown metaGiven : Bool) : Prog :=
     (.seq (.acq raopTakeover)
       (.tryFinally
         (Prog.ofList [
-          .await, .new .rconn, .await, .new .sclient, .await, .new .audio,
+          .await, .new .rconn, .await, .new .ctrl, .await, .new .timing, .await, .await,
+          .await, .new .audio,
           (if metaGiven then .skip else .await),
           (if volKnown then .skip else .attempt .await),
           .await ])
         (Prog.ofList ((raopTakeover.map .relOwn) ++
           [.whenOwn .audio (.seq (.relOwn .audio) .await),
-           .relOwn .sclient, .relOwn .rconn, .rel .acquired]))))
+           -- close() reaches the control endpoint only through self.control_client, which
+           -- was assigned only after BOTH endpoints existed
+           .whenOwn .timing (.relOwn .ctrl), .relOwn .timing,
+           .relOwn .rconn, .rel .acquired]))))
 
 /-- the web server is started and the takeover done before the try. -/
 def playUrl (localFile : Bool) : Prog :=
